@@ -1302,15 +1302,17 @@ void read_skip_mode_params(Bitstrm *bs, FrameHeader *frame_info, int frame_is_in
     PRINT_FRAME("skip_mode_present", frame_info->skip_mode_params.skip_mode_flag);
 }
 
-void load_grain_params(EbDecHandle *dec_handle_ptr, AomFilmGrain *grain_params,
-                       int film_grain_params_ref_idx) {
+EbErrorType load_grain_params(EbDecHandle *dec_handle_ptr, AomFilmGrain *grain_params,
+                              int film_grain_params_ref_idx) {
     EbDecPicBuf *ref_buf = dec_handle_ptr->ref_frame_map[film_grain_params_ref_idx];
-    assert(ref_buf != NULL);
+    if (ref_buf == NULL)
+        return EB_Corrupt_Frame;
     *grain_params = ref_buf->film_grain_params;
+    return EB_ErrorNone;
 }
 
 // Read film grain parameters
-void read_film_grain_params(EbDecHandle *dec_handle, Bitstrm *bs, AomFilmGrain *grain_params) {
+EbErrorType read_film_grain_params(EbDecHandle *dec_handle, Bitstrm *bs, AomFilmGrain *grain_params) {
     SeqHeader *  seq_header = &dec_handle->seq_header;
     FrameHeader *frame_info = &dec_handle->frame_header;
     int          i, num_pos_luma, num_pos_chroma;
@@ -1318,14 +1320,14 @@ void read_film_grain_params(EbDecHandle *dec_handle, Bitstrm *bs, AomFilmGrain *
     if (!seq_header->film_grain_params_present ||
         (!frame_info->show_frame && !frame_info->showable_frame)) {
         memset(grain_params, 0, sizeof(*grain_params));
-        return;
+        return EB_ErrorNone;
     }
     grain_params->apply_grain = dec_get_bits(bs, 1);
     PRINT_FRAME("apply_grain", grain_params->apply_grain);
 
     if (!grain_params->apply_grain) {
         memset(grain_params, 0, sizeof(*grain_params));
-        return;
+        return EB_ErrorNone;
     }
 
     grain_params->random_seed = dec_get_bits(bs, 16);
@@ -1339,9 +1341,10 @@ void read_film_grain_params(EbDecHandle *dec_handle, Bitstrm *bs, AomFilmGrain *
         int film_grain_params_ref_idx = dec_get_bits(bs, 3);
         PRINT_FRAME("film_grain_params_ref_idx", film_grain_params_ref_idx);
         uint16_t temp_grain_seed = grain_params->random_seed;
-        load_grain_params(dec_handle, grain_params, film_grain_params_ref_idx);
+        if (load_grain_params(dec_handle, grain_params, film_grain_params_ref_idx) != EB_ErrorNone)
+            return EB_Corrupt_Frame;
         grain_params->random_seed = temp_grain_seed;
-        return;
+        return EB_ErrorNone;
     }
     grain_params->num_y_points = dec_get_bits(bs, 4);
     assert(grain_params->num_y_points <= 14);
@@ -1396,7 +1399,7 @@ void read_film_grain_params(EbDecHandle *dec_handle, Bitstrm *bs, AomFilmGrain *
         (seq_header->color_config.subsampling_y == 1) &&
         (((grain_params->num_cb_points == 0) && (grain_params->num_cr_points != 0)) ||
          ((grain_params->num_cb_points != 0) && (grain_params->num_cr_points == 0))))
-        return; // EB_DecUnsupportedBitstream;
+        return EB_ErrorNone; // EB_DecUnsupportedBitstream;
 
     grain_params->scaling_shift = dec_get_bits(bs, 2) + 8;
     grain_params->ar_coeff_lag  = dec_get_bits(bs, 2);
@@ -1448,6 +1451,7 @@ void read_film_grain_params(EbDecHandle *dec_handle, Bitstrm *bs, AomFilmGrain *
     grain_params->clip_to_restricted_range = dec_get_bits(bs, 1);
     PRINT_FRAME("overlap_flag", grain_params->overlap_flag);
     PRINT_FRAME("clip_to_restricted_range", grain_params->clip_to_restricted_range);
+    return EB_ErrorNone;
 }
 
 int seg_feature_active_idx(SegmentationParams *seg_params, int segment_id,
@@ -1732,8 +1736,8 @@ static void check_mt_support(EbDecHandle *dec_handle_ptr) {
     }
 }
 
-void read_uncompressed_header(Bitstrm *bs, EbDecHandle *dec_handle_ptr, ObuHeader *obu_header,
-                              int num_planes) {
+EbErrorType read_uncompressed_header(Bitstrm *bs, EbDecHandle *dec_handle_ptr, ObuHeader *obu_header,
+                                     int num_planes) {
     SeqHeader *  seq_header = &dec_handle_ptr->seq_header;
     FrameHeader *frame_info = &dec_handle_ptr->frame_header;
     int          id_len = 0, all_frames, frame_is_intra = 0, frame_size_override_flag = 0;
@@ -1766,9 +1770,12 @@ void read_uncompressed_header(Bitstrm *bs, EbDecHandle *dec_handle_ptr, ObuHeade
                 PRINT_FRAME("display_frame_id", display_frame_id);
                 if (display_frame_id != frame_info->ref_frame_idx[frame_to_show_map_idx] &&
                     frame_info->ref_valid[frame_to_show_map_idx] == 1)
-                    return; // EB_Corrupt_Frame;
+                    return EB_Corrupt_Frame;
             }
 
+            // an empty slot (fresh decoder, lost key frame) cannot be shown
+            if (dec_handle_ptr->ref_frame_map[frame_to_show_map_idx] == NULL)
+                return EB_Corrupt_Frame;
             dec_handle_ptr->cur_pic_buf[0] = dec_handle_ptr->ref_frame_map[frame_to_show_map_idx];
             frame_info->frame_type         = dec_handle_ptr->cur_pic_buf[0]->frame_type;
 
@@ -1777,9 +1784,10 @@ void read_uncompressed_header(Bitstrm *bs, EbDecHandle *dec_handle_ptr, ObuHeade
                 frame_info->showable_frame      = 0;
             }
 
-            if (seq_header->film_grain_params_present)
-                load_grain_params(
-                    dec_handle_ptr, &frame_info->film_grain_params, frame_to_show_map_idx);
+            if (seq_header->film_grain_params_present &&
+                load_grain_params(dec_handle_ptr, &frame_info->film_grain_params, frame_to_show_map_idx) !=
+                    EB_ErrorNone)
+                return EB_Corrupt_Frame;
 
             generate_next_ref_frame_map(dec_handle_ptr);
 
@@ -1789,7 +1797,7 @@ void read_uncompressed_header(Bitstrm *bs, EbDecHandle *dec_handle_ptr, ObuHeade
             dec_handle_ptr->show_existing_frame = frame_info->show_existing_frame;
             dec_handle_ptr->show_frame          = frame_info->show_frame;
             dec_handle_ptr->showable_frame      = frame_info->showable_frame;
-            return;
+            return EB_ErrorNone;
         }
 
         frame_info->frame_type = dec_get_bits(bs, 2);
@@ -1856,7 +1864,7 @@ void read_uncompressed_header(Bitstrm *bs, EbDecHandle *dec_handle_ptr, ObuHeade
                 : (1 << id_len) + frame_info->current_frame_id - prev_frame_id;
             // Bitstream conformance
             if (frame_info->current_frame_id == prev_frame_id || diff_frame_id >= 1 << (id_len - 1))
-                return; // EB_Corrupt_Frame;
+                return EB_Corrupt_Frame;
         }
 
         //mark_ref_frames( id_len )
@@ -1983,9 +1991,15 @@ void read_uncompressed_header(Bitstrm *bs, EbDecHandle *dec_handle_ptr, ObuHeade
                                               (1 << id_len));
                 if (expected_frame_id != frame_info->ref_frame_id[ref_frm_id]) {
                     assert(0);
-                    return; // EB_Corrupt_Frame;
+                    return EB_Corrupt_Frame;
                 }
             }
+        }
+
+        // every reference named by the header must be an occupied slot (empty on a fresh decoder or after a lost key frame)
+        for (int i = LAST_FRAME; i <= ALTREF_FRAME; ++i) {
+            if (get_ref_frame_buf(dec_handle_ptr, i) == NULL)
+                return EB_Corrupt_Frame;
         }
 
         if (frame_size_override_flag && !frame_info->error_resilient_mode)
@@ -2155,7 +2169,8 @@ void read_uncompressed_header(Bitstrm *bs, EbDecHandle *dec_handle_ptr, ObuHeade
     PRINT_FRAME("reduced_tx_set", frame_info->reduced_tx_set);
     read_global_motion_params(bs, dec_handle_ptr, frame_info, frame_is_intra);
 
-    read_film_grain_params(dec_handle_ptr, bs, &frame_info->film_grain_params);
+    if (read_film_grain_params(dec_handle_ptr, bs, &frame_info->film_grain_params) != EB_ErrorNone)
+        return EB_Corrupt_Frame;
 
     dec_handle_ptr->cur_pic_buf[0]->film_grain_params =
         dec_handle_ptr->frame_header.film_grain_params;
@@ -2169,6 +2184,7 @@ void read_uncompressed_header(Bitstrm *bs, EbDecHandle *dec_handle_ptr, ObuHeade
         if (!frame_info->show_existing_frame)
             svt_setup_motion_field(dec_handle_ptr, NULL);
     }
+    return EB_ErrorNone;
 }
 
 EbErrorType read_frame_header_obu(Bitstrm *bs, EbDecHandle *dec_handle_ptr, ObuHeader *obu_header,
@@ -2179,7 +2195,9 @@ EbErrorType read_frame_header_obu(Bitstrm *bs, EbDecHandle *dec_handle_ptr, ObuH
     uint32_t start_position, end_position, header_bytes;
 
     start_position = get_position(bs);
-    read_uncompressed_header(bs, dec_handle_ptr, obu_header, num_planes);
+    status = read_uncompressed_header(bs, dec_handle_ptr, obu_header, num_planes);
+    if (status != EB_ErrorNone)
+        return status;
 
     if (allow_intrabc(dec_handle_ptr)) {
         svt_av1_setup_scale_factors_for_frame(&dec_handle_ptr->sf_identity,
